@@ -126,7 +126,7 @@ func (codecV2) UnmarshalPacket(header, body []byte, decrypt cipher.BlockCryptor,
 		pkt.SetRefers(refers)
 	}
 	body = body[pos:]
-	if len(body) > 0 {
+	if len(body) > 0 || pkt.Flag()&(fatchoy.PFlagCompressed|fatchoy.PFlagEncrypted) != 0 {
 		return unmarshalPacketBody(body, decrypt, pkt)
 	}
 	return nil
